@@ -246,9 +246,14 @@ def r02_3(ctx: Ctx, rep: Report) -> None:
 
 def run(ctx: Ctx, rep: Report, tier: str) -> None:
     r02_1(ctx, rep)
-    from .c19 import split_before_convert
+    # R02.2: conversion to NX-OS splits multi-port entries first; the split itself must keep every item (C19's rules)
+    from . import c19
+    from .c01 import field_isolation
 
-    split_before_convert(ctx, rep, rid="R02.2")
+    sub = Report("C02")
+    c19.run(ctx, sub, tier)
+    rep.absorb(sub, "R02.2")
+    field_isolation(ctx, rep, "R02.7")
     r02_3(ctx, rep)
     # R02.4 writer keywords belong to the target platform's reader; R02.6 re-typing tests
     from .c01 import classification_guards
